@@ -8,6 +8,7 @@
    LSTOPO / DIFFPATCH / BADARGS: the harness compares the tool with the library itself; the expected line is constant.
    Tokens are %XX-escaped byte strings (`%_` = empty string). -/
 import Hw.Io.Calc
+import Hw.Io.CalcAttr
 import Driver.Topo
 namespace Driver.ToolsEng
 open Hw Hw.Topo Hw.Calc Driver
@@ -15,6 +16,7 @@ open Hw Hw.Topo Hw.Calc Driver
 structure State where
   part : TopoEng.Partial := {}
   cur : Option Dump := none
+  extra : Extra := {}          -- CPU kinds and memory attribute values of the current topology (X* lines after the dump block)
 
 def init : State := {}
 
@@ -36,6 +38,67 @@ def esc (l : List Nat) : String :=
   String.join (l.map (fun b => if safeByte b then String.singleton (Char.ofNat b)
     else "%" ++ String.singleton (hexChar (b / 16)) ++ String.singleton (hexChar (b % 16))))
 
+/-- `<n> (c <set> <value> | o <type> <gp> <value>)*` -/
+def parseInits : Nat → List String → Option (List (XInit × Nat))
+  | 0, [] => some []
+  | n+1, "c" :: set :: v :: r => do
+    let m ← TopoEng.parseSet set
+    let v ← parseNat v
+    let rest ← parseInits n r
+    pure ((XInit.cpuset (m.getD 0), v) :: rest)
+  | n+1, "o" :: ty :: gp :: v :: r => do
+    let ty ← parseNat ty
+    let gp ← parseNat gp
+    let v ← parseNat v
+    let rest ← parseInits n r
+    pure ((XInit.obj ty gp, v) :: rest)
+  | _, _ => none
+
+def parsePairs : Nat → List String → Option (List (Bytes × Bytes))
+  | 0, [] => some []
+  | n+1, a :: b :: r => do
+    let a ← unesc a
+    let b ← unesc b
+    let rest ← parsePairs n r
+    pure ((a, b) :: rest)
+  | _, _ => none
+
+def updAttr (x : Extra) (id : Nat) (f : XAttr → XAttr) : Option Extra :=
+  match x.attrs[id]? with
+  | none => none
+  | some a => some { x with attrs := x.attrs.set id (f a) }
+
+/-- the lines the harness sends after a dump block: what the public API reports about CPU kinds and memory attributes -/
+def feedExtra (x : Extra) (t : List String) : Option Extra :=
+  match t with
+  | "XKIND" :: set :: eff :: n :: rest => do
+    let m ← TopoEng.parseSet set
+    let e ← parseInt eff
+    let n ← parseNat n
+    let infos ← parsePairs n rest
+    pure { x with kinds := x.kinds ++ [{ cpuset := m.getD 0, eff := e, infos := infos }] }
+  | ["XATTR", id, flags, name] => do
+    let id ← parseNat id
+    let fl ← parseNat flags
+    let nm ← unesc name
+    if id != x.attrs.length then none else pure { x with attrs := x.attrs ++ [{ name := nm, flags := fl }] }
+  | ["XVAL", id, gp, v] => do
+    let id ← parseNat id
+    let gp ← parseNat gp
+    let v ← parseNat v
+    updAttr x id (fun a => { a with values := a.values ++ [(gp, v)] })
+  | "XINI" :: id :: gp :: n :: rest => do
+    let id ← parseNat id
+    let gp ← parseNat gp
+    let n ← parseNat n
+    let is ← parseInits n rest
+    updAttr x id (fun a => { a with inits := a.inits ++ [(gp, some is)] })
+  | ["XINIERR", id, gp] => do
+    let id ← parseNat id
+    let gp ← parseNat gp
+    updAttr x id (fun a => { a with inits := a.inits ++ [(gp, none)] })
+  | _ => none
+
 def showRes (r : Res) : String :=
   match r with
   | .exit 0 (some o) => "rc=0 out=" ++ esc o
@@ -44,8 +107,8 @@ def showRes (r : Res) : String :=
   | .skip why => "skip:" ++ why
 
 /-- the set printed by a plain run (list format), if the run succeeds -/
-def plainSet (d : Dump) (args : List (List Nat)) : Option (List Nat) :=
-  match calcMain d (str "--cof" :: str "list" :: args) [] with
+def plainSet (d : Dump) (x : Extra) (args : List (List Nat)) : Option (List Nat) :=
+  match calcMainX d x (str "--cof" :: str "list" :: args) [] with
   | .exit 0 (some o) => some o
   | _ => none
 
@@ -57,11 +120,11 @@ def outLines (o : List Nat) : Option (List (List Nat)) :=
   if o.getLast? != some 10 then none else some (linesOf o)
 
 /-- the SL relation evaluated on the model (mirrors `op_sl` of harness/h_tools.c) -/
-def slAnswer (d : Dump) (opts : List (List Nat)) (sin : List Nat) : String :=
+def slAnswer (d : Dump) (x : Extra) (opts : List (List Nat)) (sin : List Nat) : String :=
   let lines := linesOf sin
   if sin.any (· == 0) then "na" else
   if lines.any (fun l => (tokensOf l).any (fun t => t.head? == some 45)) then "na" else
-  match calcMain d opts sin with
+  match calcMainX d x opts sin with
   | .skip w => "skip:" ++ w
   | .exit 0 none => "skip:stdout-unpredicted"
   | .exit 0 (some o) =>
@@ -74,7 +137,7 @@ def slAnswer (d : Dump) (opts : List (List Nat)) (sin : List Nat) : String :=
         | (l, o) :: r, cmp =>
           let toks := tokensOf l
           if toks.isEmpty then go r cmp else
-          match calcMain d (opts ++ toks) [] with
+          match calcMainX d x (opts ++ toks) [] with
           | .skip w => "skip:" ++ w
           | .exit 0 none => "skip:stdout-unpredicted"
           | .exit 0 (some ok) =>
@@ -84,22 +147,22 @@ def slAnswer (d : Dump) (opts : List (List Nat)) (sin : List Nat) : String :=
       go (lines.zip outs) 0
   | .exit _ _ => "na"
 
-def answer (d : Dump) (t : List String) : Option String :=
+def answer (d : Dump) (x : Extra) (t : List String) : Option String :=
   match t with
   | "CALC" :: _ :: sin :: args => do
     let sin ← unesc sin
     let args ← args.mapM unesc
-    pure (showRes (calcMain d args sin))
+    pure (showRes (calcMainX d x args sin))
   | "DISTRIB" :: _ :: args => do
     let args ← args.mapM unesc
     pure (showRes (distribMain d args))
   | "LRT" :: args => do
     let args ← args.mapM unesc
-    match calcMain d (str "--largest" :: args) [], plainSet d args with
+    match calcMainX d x (str "--largest" :: args) [], plainSet d x args with
     | .exit 0 (some o), some s1 =>
       if (splitSpaces o).isEmpty then pure "na" else
       let back := if args.head? == some (str "-p") then str "-p" :: splitSpaces o else splitSpaces o
-      match plainSet d back with
+      match plainSet d x back with
       | some s2 => pure (if s1 == s2 then "same=1" else "same=0")
       | none => pure "na"
     | .skip w, _ => pure ("skip:" ++ w)
@@ -107,7 +170,7 @@ def answer (d : Dump) (t : List String) : Option String :=
   | "NI" :: lvl :: args => do
     let lvl ← unesc lvl
     let args ← args.mapM unesc
-    match calcMain d (str "-N" :: lvl :: args) [], calcMain d (str "-I" :: lvl :: args) [] with
+    match calcMainX d x (str "-N" :: lvl :: args) [], calcMainX d x (str "-I" :: lvl :: args) [] with
     | .exit 0 (some n), .exit 0 (some l) =>
       let items := (splitOnP (· == 44) (l.filter (· != 10)) []).filter (fun x => !x.isEmpty)
       let nn := n.filter (· != 10)
@@ -119,7 +182,7 @@ def answer (d : Dump) (t : List String) : Option String :=
   | "SL" :: sin :: args => do
     let sin ← unesc sin
     let args ← args.mapM unesc
-    pure (slAnswer d (str "-q" :: args) sin)
+    pure (slAnswer d x (str "-q" :: args) sin)
   | ["LSTOPO", _, _, _, _, lib] => pure (if lib = "lib=ok" then "rc=0 same=1 reload=1" else "rc=nz")
   | ["DIFFPATCH", _, cx, _, _] => pure (if cx = "complex=0" then "diff=0 patch=0 equiv=1" else if cx = "complex=1" then "diff=nz" else "bad-op")
   | "BADARGS" :: _ => pure "rc=nz"
@@ -135,10 +198,14 @@ def step (st : State) (line : String) : State × String :=
     match r with
     | none => ({ st with part := p' }, ".")
     | some (.error e) => ({ st with part := p', cur := none }, "T FAIL dump-unparsable:" ++ e)
-    | some (.ok d) => ({ st with part := p', cur := some d }, "T ok")
+    | some (.ok d) => ({ st with part := p', cur := some d, extra := {} }, "T ok")
+  | "XKIND" :: _ | "XATTR" :: _ | "XVAL" :: _ | "XINI" :: _ | "XINIERR" :: _ =>
+    match feedExtra st.extra t with
+    | some x => ({ st with extra := x }, ".")
+    | none => (st, "bad-extra-line")
   | _ =>
     match st.cur with
     | none => (st, "no-topology")
-    | some d => (st, (answer d t).getD "bad-op")
+    | some d => (st, (answer d st.extra t).getD "bad-op")
 
 end Driver.ToolsEng
